@@ -25,16 +25,27 @@ def load_known():
         return json.load(f).get("findings", [])
 
 
-def match_known(known, prop, violation):
-    """A finding matches by property + oracle id + (optional) regex over the canonical detail."""
+def match_known(known, prop, violation, transformations=None):
+    """A finding matches by property + oracle id (exact, or 'oracle_regex') + optional regexes over the canonical detail
+    and over the exceptions seen in the failing step ([name, message, innermost spil frame]: the call site) + an optional
+    configuration transformation the run's generated configuration must carry (C20)."""
     text = json.dumps(violation.get("detail"), sort_keys=True)
+    excs = json.dumps(violation.get("exceptions_in_step") or [], sort_keys=True)
     for k in known:
         if k.get("status", "open") != "open" or k["property"] != prop:
             continue
         sig = k["signature"]
-        if sig.get("oracle") != violation["oracle"]:
+        if "oracle" in sig and sig["oracle"] != violation["oracle"]:
+            continue
+        if "oracle_regex" in sig and not re.fullmatch(sig["oracle_regex"], violation["oracle"]):
+            continue
+        if "oracle" not in sig and "oracle_regex" not in sig:
             continue
         if sig.get("detail_regex") and not re.search(sig["detail_regex"], text):
+            continue
+        if sig.get("exception_regex") and not re.search(sig["exception_regex"], excs):
+            continue
+        if sig.get("transformation") and sig["transformation"] not in (transformations or []):
             continue
         return k
     return None
@@ -249,6 +260,8 @@ def cmd_check_c20(args):
         if tr - covered or len(variants) >= (n_var + 1) // 2:
             variants.append(v)
             covered |= tr
+    if not args.mutant_mode:
+        variants.insert(1, confgen.FRAME_VARIANT)     # key-name-only variant, see confgen.py (second: never dropped by the soft budget)
     if args.variant is not None:
         variants = [args.variant]
     tmp = tempfile.mkdtemp(prefix="spil-c20-", dir=scratch_base())
@@ -268,20 +281,29 @@ def cmd_check_c20(args):
                 pool = O.Pool(args.repo, workers, conf_src=pkg, req_timeout=cfg.get("req_timeout", 600))
                 vres = []
                 for pname in (C20_PROFILES_THOROUGH if (tier == "thorough" or args.all_profiles) else C20_PROFILES):
-                    seeds = O.run_seeds(base_seed, "C20-%s-%d" % (pname, v), cfg["runs_per_profile"])
-                    vbad = []
+                    seeds = O.run_seeds(base_seed, "C20-%s-%d" % (pname, v),
+                                        cfg["runs_per_profile"] // (2 if v == confgen.FRAME_VARIANT else 1))
+                    vbad, vknown = [], []
+                    tr = desc.get("transformations", [])
+
+                    def on_result(m, vb=vbad, vk=vknown, tr=tr):
+                        # runs that end at an open known finding do not use up the batch's violation allowance
+                        if m.get("violations"):
+                            (vk if match_known(known, prop, m["violations"][0], tr) else vb).append(m)
                     r = O.batch(pool, pname, seeds, tier, max(20.0, budget / max(1, len(variants))), stop_on_violation=args.mutant_mode,
-                                on_result=lambda m, vb=vbad: vb.append(m) if m.get("violations") else None, max_bad=3, bad=vbad)
+                                on_result=on_result, max_bad=3, bad=vbad)
+                    vbad += sorted(vknown, key=lambda q: len(q["steps"]))[:1]
                     for x in r:
                         x["variant"] = v
                     vres += r
                     # minimise inside this variant's pool (the replay needs this configuration)
                     groups = {}
                     for x in vbad:
-                        groups.setdefault(x["violations"][0]["oracle"], []).append(x)
-                    for oracle, rs in sorted(groups.items()):
+                        groups.setdefault((x["violations"][0]["oracle"], bool(match_known(known, prop, x["violations"][0], tr))), []).append(x)
+                    for (oracle, _), rs in sorted(groups.items()):
                         r0 = sorted(rs, key=lambda q: len(q["steps"]))[0]
-                        best = None if args.no_minimise else Minimiser(pool, r0, budget=cfg.get("min_budget", 120)).run()
+                        is_known = match_known(known, prop, r0["violations"][0], tr)   # listed already: no need to shrink it again
+                        best = None if (args.no_minimise or is_known) else Minimiser(pool, r0, budget=cfg.get("min_budget", 120)).run()
                         final = dict(best or r0)
                         final["variant"] = v
                         final["transformations"] = desc.get("transformations", [])
@@ -305,8 +327,8 @@ def cmd_check_c20(args):
         seen = set()
         for final in bad:
             oracle = final["violations"][0]["oracle"]
-            k = match_known(known, prop, final["violations"][0])
-            key = (oracle, k["what"] if k else None)
+            k = match_known(known, prop, final["violations"][0], final.get("transformations"))
+            key = ("known", k["id"]) if k else (oracle, None)
             path = "-"
             if not args.mutant_mode:
                 doc_path = write_replay(dict(final, profile=final["profile"]), prop)
@@ -344,11 +366,12 @@ def cmd_check_c20(args):
                     x["cases"] = ["%s:%s" % (x.get("variant"), c) for c in x["cases"]]
             write_evidence(prop, P, tier, base_seed, results, wall, n_viol,
                            {"variants": per_variant, "variants_run": len(per_variant),
+                            "known_findings_reproduced": sorted(q[1] for q in seen if q[0] == "known"),
                             "profiles_per_variant": C20_PROFILES_THOROUGH if (tier == "thorough" or args.all_profiles) else C20_PROFILES})
         if n_viol and rc == 0:
             rc = 1
-        print("C20 %s: %d variants, %d runs, %d violating groups, %.1fs" % (tier, len(per_variant),
-                                                                             sum(1 for x in results if "stats" in x), len(bad), wall))
+        print("C20 %s: %d variants, %d runs, %d violating groups, %d known findings, %.1fs"
+              % (tier, len(per_variant), sum(1 for x in results if "stats" in x), n_viol, sum(1 for q in seen if q[0] == "known"), wall))
     finally:
         shutil.rmtree(tmp, ignore_errors=True)
     return rc
